@@ -5,7 +5,7 @@ import re
 from vx.unit import Unit
 from vx.extract import C, ExtractError
 
-PROPS = ['C13', 'C01']
+PROPS = ['C13', 'C06', 'C01']
 HEADER = 'use vstd::prelude::*;\nuse vstd::string::*;\nuse vstd::std_specs::iter::IteratorSpec;\nverus! {\n'
 FOOTER = '\n} // verus!\nfn main() {}\n'
 PREDS = ['needs_escaping', 'needs_escaping_at_start', 'needs_ansi_c_quoting']
@@ -19,6 +19,9 @@ def twinify(expr):
 
 def build(repo, findings):
     u = Unit('U16', 'quote(): every style it can pick reads back as the value (POSIX/bash word reader)', repo, ['C13'], safety_props=['C01', 'C13'])
+    u.prop_alias = {'C13': ['C06']}      # ${v@Q} / ${v@A} hand out exactly what these functions write: their C13 clauses count for C06
+    if 'C06' not in u.props:
+        u.props.append('C06')
     src = u.source('brush-core/src/escape.rs')
     # precondition of `quote` below: nobody asks to leave newlines out of ANSI-C quoting (both constructors use Default for it)
     for rel in ('brush-core/src/escape.rs',):
